@@ -29,13 +29,14 @@ def configs(tier, seed):
         out.append(dict(args=[1, 1, 2], S=1, mults=[1], depth=6, saveload=False, ngrams=[]))
     else:
         for args in ([1, 1, 2], [2, 1, 2], [1, 2, 3], [2, 2, 4], [3, 2, 1], [2, 3, 16], [1, 4, 2]):
-            out.append(dict(args=args, S=2, mults=[1, 2], depth=5))
+            out.append(dict(args=args, S=2, mults=[1, 2], depth=4))
+            out.append(dict(args=args, S=2, mults=[2], depth=5, ngrams=[]))
         for args in ([1, 1, 2], [2, 2, 3]):
-            out.append(dict(args=args, S=2, mults=[1, 3, 2**30], depth=4))
+            out.append(dict(args=args, S=2, mults=[1, 3, 2**30], depth=3))
         out.append(dict(args=[1, 1, 2], S=1, mults=[1], depth=8, saveload=False, ngrams=[]))
         out.append(dict(args=[1, 1, 2], S=1, mults=[1, 2, 5], depth=5, saveload=False, ngrams=[]))
         out.append(dict(args=[1, 1, 2], S=4, mults=[1], depth=5, saveload=False, ngrams=[]))
-        out.append(dict(args=[2, 2, 2], S=3, mults=[1, 2], depth=4, saveload=False))
+        out.append(dict(args=[2, 2, 2], S=3, mults=[1, 2], depth=3, saveload=False))
     return out
 
 
